@@ -132,6 +132,17 @@ def exact_info(m):
     return is_int, is_rat, val, ln
 
 
+def intermediate_overflow(m):
+    """Some single base power of the magnitude (or its reciprocal, for negative exponents) exceeds LDBL_MAX, so the library's
+    long-double evaluation overflows on the way even if the final value is representable."""
+    lnmax = Decimal(FMAX["f80"].numerator).ln()
+    for b, e in m.items():
+        base = PI if b == "pi" else Decimal(int(b[1:]))
+        if abs(base.ln() * Decimal(Fraction(e).numerator) / Decimal(Fraction(e).denominator)) > lnmax:
+            return True
+    return False
+
+
 def parse_hexfloat(s):
     """'0x1.8p+3' / 'inf' / 'nan' → Fraction or str."""
     s = s.strip()
@@ -324,7 +335,7 @@ def main(tier, seed):
                     if fits is not None and (rep == "1") != fits:
                         violations.append({"what": f"representable_in<{CT[t]}>({ms}) = {rep} but the exact value is "
                                                    f"{'within' if fits else 'beyond'} the type's range", "class": f"rep-flt-{t}",
-                                           "rec": dict(rec, kind="oracle", observable="representable", inverse_overflows=bool(-ln > lnmax))})
+                                           "rec": dict(rec, kind="oracle", observable="representable", inverse_overflows=bool(-ln > lnmax), intermediate_overflow=intermediate_overflow(m))})
                     elif rep == "1":
                         stats["float_cells_checked"] += 1
                         iv = parse_hexfloat(valtxt)
